@@ -43,6 +43,10 @@ def check(repo, col, tier):
     # the number of time points returned, and the state returned with them, do not depend on the checkpoint layout
     # (shared with C07)
     from . import c07
+    # under jit the module must come out of integrate as it went in: nothing computed during tracing may stay on it (shared with C18)
+    from . import c18 as _c18
+    col.rule("R-C06-tracer", "values stored on the module while integrate is traced are concrete arrays", 2)
+    _c18._tracer(repo, col, "R-C06-tracer")
     col.rule("R-C06-stepcount", "steps behind the returned state == steps returned, with and without checkpointing", 2)
     ig_ = repo.func(IG, "integrate")
     c07._stepcount(repo, col, ig_, idx.expander(repo, ig_), "R-C06-stepcount")
@@ -170,6 +174,10 @@ def _tainted(t: T, traced, depth=0) -> bool:
             return False
         if t.name == "values" and t.args[0].op == "param":
             return _tainted(t.args[0], traced, depth + 1)
+    if op in ("sub", "item") and t.args and t.args[0].op == "param" and t.args[0].name in ("data_stimuli", "data_clamps"):
+        # (name, values, table of rows): only the values are traced
+        k_ = t.name if op == "item" else (t.args[1].name if t.args[1].op == "const" else None)
+        return k_ == 1 and t.args[0].name in traced
     if op == "sub":
         base, sel = t.args
         # pstate entries: only "val" is traced
@@ -225,10 +233,12 @@ def taint(repo, col, R):
         if fi.qual in seen_q or fi.qual in ("integrate",):
             continue
         seen_q.add(fi.qual)
-        if fi.file == IG and fi.qual in ("add_stimuli", "add_clamps"):
-            continue  # run before tracing starts, on concrete dictionaries
         ex = E.expander(fi)
         traced = {p for p in fi.params if p in TRACED_PARAMS}
+        if fi.file == IG and fi.qual in ("add_stimuli", "add_clamps"):
+            # these run inside the traced call: the module's own dictionaries are concrete, but the data-fed values
+            # (element 1 of data_stimuli / data_clamps) are traced under jit / vmap / grad
+            traced = {"data_stimuli", "data_clamps"}
         if fi.name in ("convert_point_process_to_distributed", "_get_external_input"):
             traced |= {"length", "length_single_compartment", "radius", "current", "i_stim"}
         if fi.qual.startswith("integrate.") or fi.qual.startswith("build_init_and_step_fn."):
